@@ -65,6 +65,7 @@ class Sim:
         self.meta_fn = None
         self.running_seq = None
         self.n_completed_batches = 0
+        self.n_tasks_finished = 0        # batches whose task body has finished (their worker is free again)
 
     # ------------------------------------------------------------------ scheduling core
     def _cb_can_run(self):
@@ -233,6 +234,7 @@ class Sim:
     def drop_pending(self):
         """Pool terminated: queued work is discarded (a completion already in progress goes on)."""
         self.events.append(("drop", [s for s, _ in self.pending]))
+        self.n_dropped = getattr(self, "n_dropped", 0) + len(self.pending)
         del self.pending[:]
 
     def join_callback_thread(self):
@@ -338,11 +340,13 @@ class SimPool:
                 self.sim.sp("task")
                 out = func(*args, **(kwds or {}))
             except BaseException as e:
+                self.sim.n_tasks_finished += 1
                 res.exc = e
                 res.done = True
                 if error_callback is not None:
                     error_callback(e)
                 return
+            self.sim.n_tasks_finished += 1
             res.value = out
             res.done = True
             if callback is not None:
@@ -410,6 +414,7 @@ class SimExecutor:
                 # pending futures with TerminatedWorkerError (terminate_broken)
                 self.broken = True
                 self.sim.events.append(("worker-died", seq))
+                self.sim.n_tasks_finished += 1
                 victims = [fut] + [f for s, f in list(self.futures.items()) if not f.done() and f is not fut]
                 self.sim.drop_pending()
                 for f in victims:
@@ -421,8 +426,10 @@ class SimExecutor:
                 self.sim.sp("task")
                 out = func(*args, **kwargs)
             except BaseException as e:
+                self.sim.n_tasks_finished += 1
                 fut.set_exception(e)
                 return
+            self.sim.n_tasks_finished += 1
             fut.set_result(out)
         seq = self.sim.submit(runner)
         self.futures[seq] = fut
